@@ -18,6 +18,8 @@ type Env struct {
 	sorts    map[string]*Sort // by types.TypeString
 	SliceS   *Sort
 	typeIDs  map[string]int
+	typeList   []types.Type
+	implIfaces map[string]types.Type
 	strLits  map[string]*Term
 	Specs    *SpecDB
 	Warnings []string
@@ -348,7 +350,47 @@ func (E *Env) TypeID(t types.Type) int {
 	}
 	id := len(E.typeIDs) + 1
 	E.typeIDs[k] = id
+	E.typeList = append(E.typeList, t)
+	for _, it := range E.implIfaces {
+		E.implFact(t, id, it)
+	}
 	return id
+}
+
+// Implements: does the dynamic type with this tag implement interface type I? An uninterpreted predicate of the tag,
+// with its value fixed for every concrete type the run knows by name (method sets are decided by go/types).
+func (E *Env) Implements(tag *Term, I types.Type) *Term {
+	k := typeKey(I)
+	if _, ok := E.implIfaces[k]; !ok {
+		if E.implIfaces == nil {
+			E.implIfaces = map[string]types.Type{}
+		}
+		E.implIfaces[k] = I
+		for _, t := range E.typeList {
+			E.implFact(t, E.typeIDs[typeKey(t)], I)
+		}
+	}
+	return E.TS.App("impl~"+sanitize(k), SBool, tag)
+}
+
+func (E *Env) implFact(t types.Type, id int, I types.Type) {
+	if _, isI := t.Underlying().(*types.Interface); isI {
+		return
+	}
+	if _, isTP := t.(*types.TypeParam); isTP {
+		return
+	}
+	it, ok := I.Underlying().(*types.Interface)
+	if !ok {
+		return
+	}
+	name := "impl~" + sanitize(typeKey(I))
+	f := E.TS.App(name, SBool, E.TS.IntLit(int64(id)))
+	if types.Implements(t, it) {
+		E.TS.AddAxiom(name, f)
+	} else {
+		E.TS.AddAxiom(name, E.TS.Not(f))
+	}
 }
 
 func (E *Env) IfaceNil() *Term {
